@@ -632,6 +632,77 @@ theorem visitMember_renameAt (S : List Nat) (new : α) (m : Member α) :
   | none => simp [renameAt, renameEv, Function.comp_def, rnName, List.map_flatMap]
   | some b => simp [renameAt, renameEv, visit_renameAt S new b, Function.comp_def, rnName, List.map_flatMap]
 
+/-! ### toplevel and module level -/
+
+def TypeDef.renameAt (S : List Nat) (new : α) : TypeDef α → TypeDef α
+  | .none => .none
+  | .struct fields => .struct (fields.map fun x => (rnName S new x.1 x.2.1, x.2.1, Node.renameAt S new x.2.2))
+  | .enum variants => .enum (variants.map fun x => (rnName S new x.1 x.2.1, x.2.1, Node.renameAtList S new x.2.2))
+
+/-- `apply_renaming` on a toplevel (`variable_definition.rs:362-450`): every named thing whose
+location is in `S`. (For a real rename `S` contains only variable / parameter / pattern locations.) -/
+def Toplevel.renameAt (S : List Nat) (new : α) (t : Toplevel α) : Toplevel α :=
+  { t with
+    name := rnName S new t.name t.nameLoc
+    tparams := t.tparams.map (TParam.renameAt S new)
+    supers := t.supers.map fun s => (rnName S new s.1 s.2.1, s.2.1, Node.renameAtList S new s.2.2)
+    typeDef := t.typeDef.renameAt S new
+    members := t.members.map fun m => { Member.renameAt S new m with name := rnName S new m.name m.nameLoc } }
+
+def Module.renameAt (S : List Nat) (new : α) (m : Module α) : Module α :=
+  { imports := m.imports.map fun i => (rnName S new i.1 i.2, i.2)
+    toplevels := m.toplevels.map (Toplevel.renameAt S new) }
+
+theorem visitTypeDef_renameAt (S : List Nat) (new : α) (t : TypeDef α) :
+    visitTypeDef (t.renameAt S new) = renameAt S new (visitTypeDef t) := by
+  cases t with
+  | none => simp [TypeDef.renameAt, visitTypeDef, renameAt]
+  | struct fields =>
+    simp [TypeDef.renameAt, visitTypeDef, renameAt, List.flatMap_map, List.map_flatMap, visit_renameAt,
+      Function.comp_def, renameEv, rnName]
+  | enum variants =>
+    simp [TypeDef.renameAt, visitTypeDef, renameAt, List.flatMap_map, List.map_flatMap, visitList_renameAt,
+      Function.comp_def, renameEv, rnName]
+
+theorem visitMembers_renameAt (S : List Nat) (new : α) (t : Toplevel α) (b : Bool) :
+    visitMembers (Toplevel.renameAt S new t) b = renameAt S new (visitMembers t b) := by
+  simp only [visitMembers, Toplevel.renameAt, List.filter_map, List.flatMap_map, renameAt, List.map_flatMap]
+  have hf : ((fun m : Member α => m.isMethod == b) ∘ fun m =>
+      { Member.renameAt S new m with name := rnName S new m.name m.nameLoc }) = fun m : Member α => m.isMethod == b := by
+    funext m; simp [Member.renameAt]
+  rw [hf]
+  apply flatMap_congr'
+  intro m _
+  have := visitMember_renameAt S new m
+  simp only [renameAt] at this
+  rw [← this]
+  simp [visitMember, Member.renameAt]
+
+/-- **toplevel-level renamer = event renamer**, provided the class declaration itself (the binder of
+`this`) is not among the renamed locations — which `rewrite::rename` now guarantees (fix 69a554a). -/
+theorem visitToplevel_renameAt (S : List Nat) (new this : α) (t : Toplevel α) (ht : t.loc ∉ S) :
+    visitToplevel this (Toplevel.renameAt S new t) = renameAt S new (visitToplevel this t) := by
+  have h1 := visitMembers_renameAt S new t true
+  have h2 := visitMembers_renameAt S new t false
+  simp only [visitToplevel, h1, h2]
+  simp only [Toplevel.renameAt, visitTParams_renameAt, visitTypeDef_renameAt, renameAt_append, List.map_map,
+    List.flatMap_map, Function.comp_def, visitList_renameAt]
+  by_cases hc : t.isClass = true <;>
+    simp [hc, renameAt, renameEv, ht, rnName, List.map_flatMap, Function.comp_def, TParam.renameAt, Member.renameAt]
+
+/-- **module-level renamer = event renamer** -/
+theorem visitModule_renameAt (S : List Nat) (new this : α) (m : Module α)
+    (ht : ∀ t ∈ m.toplevels, t.loc ∉ S) :
+    visitModule this (Module.renameAt S new m) = renameAt S new (visitModule this m) := by
+  simp only [visitModule, Module.renameAt, renameAt_append, List.map_map, List.flatMap_map]
+  congr 1
+  · simp [renameAt, renameEv, rnName, Function.comp_def, Toplevel.renameAt]
+  · simp only [renameAt, List.map_flatMap]
+    apply flatMap_congr'
+    intro t htm
+    have := visitToplevel_renameAt S new this t (ht t htm)
+    simpa [renameAt] using this
+
 theorem rinv_init (d : Nat) (old new : α) : RInv d old new (init : St α) :=
   ⟨by simp [init], by simp [init], by simp [init, ctxNames, names], by simp [init], by simp [init, CapInv]⟩
 
